@@ -19,6 +19,8 @@ SEEDED = os.path.join(VERIF, "seeded")
 
 
 BUDGET = None
+CHECK_JOBS = None  # --check-jobs N: worker processes per check (default: the check's own)
+PAR = 1  # --par N: seeded changes measured side by side (rate mode)
 
 
 def run_check(prop, src, seed, runs=None):
@@ -26,7 +28,8 @@ def run_check(prop, src, seed, runs=None):
     d = tempfile.mkdtemp(prefix="seeded-ev-", dir="/var/tmp")
     env["TLSIM_EVIDENCE_DIR"] = d
     env["TLSIM_REPLAY_DIR"] = os.path.join(d, "replays")
-    cmd = [os.path.join(VERIF, "check"), prop, "--tier", "quick"] + (["--runs", str(runs)] if runs else []) + (["--budget", str(BUDGET)] if BUDGET else [])
+    cmd = [os.path.join(VERIF, "check"), prop, "--tier", "quick"] + (["--runs", str(runs)] if runs else []) + (["--budget", str(BUDGET)] if BUDGET else []) + \
+        (["--jobs", str(CHECK_JOBS)] if CHECK_JOBS else [])
     p = subprocess.run(cmd, env=env, capture_output=True, text=True, cwd=VERIF)
     sigs = []
     for ln in p.stdout.splitlines():
@@ -41,33 +44,51 @@ def rate_mode(only, n):
     """Detection rate: the target check under n different seeds per change (no early stop)."""
     path = os.path.join(SEEDED, "rates.json")
     rates = json.load(open(path)) if os.path.exists(path) else {}
-    for name in sorted(os.listdir(SEEDED)):
+    import concurrent.futures as cf
+    import threading
+
+    lock = threading.Lock()
+
+    def one(name):
         d = os.path.join(SEEDED, name)
-        if not os.path.isdir(d) or (only and name not in only):
-            continue
         meta = json.load(open(os.path.join(d, "meta.json")))
         tmp = tempfile.mkdtemp(prefix="seeded-src-", dir="/var/tmp")
         try:
             shutil.copytree("/repo/src", os.path.join(tmp, "src"), ignore=shutil.ignore_patterns("__pycache__"))
             ap = subprocess.run(["patch", "-s", "-p1", "-i", os.path.join(d, "patch.diff")], cwd=tmp, capture_output=True, text=True)
             if ap.returncode != 0:
-                print(name, "PATCH FAILED")
-                continue
+                print(name, "PATCH FAILED", flush=True)
+                return
             hits = []
             for k in range(n):
                 seed = 31337 + k * 104729
                 rc, sigs, last = run_check(meta["property"], os.path.join(tmp, "src"), seed)
                 hits.append(rc)
-            rates[name] = {"property": meta["property"], "seeds": n, "caught": sum(1 for r in hits if r == 1), "harness_errors": sum(1 for r in hits if r == 2)}
-            print(name, f"{rates[name]['caught']}/{n}", flush=True)
+            with lock:
+                rates[name] = {"property": meta["property"], "seeds": n, "caught": sum(1 for r in hits if r == 1), "harness_errors": sum(1 for r in hits if r == 2)}
+                if meta.get("not_expected_to_be_caught"):
+                    rates[name]["outside_the_quantifier"] = True
+                print(name, f"{rates[name]['caught']}/{n}", flush=True)
+                with open(path, "w") as f:
+                    json.dump(rates, f, indent=1, sort_keys=True)
         finally:
             shutil.rmtree(tmp, ignore_errors=True)
-        with open(path, "w") as f:
-            json.dump(rates, f, indent=1, sort_keys=True)
+
+    names = [nm for nm in sorted(os.listdir(SEEDED)) if os.path.isdir(os.path.join(SEEDED, nm)) and (not only or nm in only)]
+    with cf.ThreadPoolExecutor(max_workers=PAR) as ex:
+        list(ex.map(one, names))
 
 
 def main(argv):
-    global BUDGET
+    global BUDGET, CHECK_JOBS, PAR
+    for flag in ("--check-jobs", "--par"):
+        if flag in argv:
+            val = int(argv[argv.index(flag) + 1])
+            argv = [a for i, a in enumerate(argv) if a != flag and (i == 0 or argv[i - 1] != flag)]
+            if flag == "--par":
+                PAR = val
+            else:
+                CHECK_JOBS = val
     if "--budget" in argv:
         BUDGET = int(argv[argv.index("--budget") + 1])
         argv = [a for i, a in enumerate(argv) if a != "--budget" and (i == 0 or argv[i - 1] != "--budget")]
